@@ -170,16 +170,9 @@ def math_tables(repo, res):
     for fn in cm.funcs.values():
         if "MathFunction" in ast.unparse(fn.node.args) and fn.node.name == "_":
             hsrc = fn
-    key = "C.formatter:MathFunction:row-selection"
-    res.ob(key)
+    # row selection of the C MathFunction handler: decided by MATH-ARGTYPE (handler interpreted on sample calls)
     if hsrc is None:
         raise AnalysisError("C MathFunction handler not found")
-    s = ast.unparse(hsrc.node)
-    if not (re.search(r"arg_type = self\.scalar_type", s) and re.search(r"if c\.args\[0\]\.dtype == L\.DataType\.REAL:\s+arg_type = self\.real_type", s)
-            and re.search(r"(\w+) = math_table\[arg_type\.name\]", s) and re.search(r"func = \w+\.get\(c\.function, c\.function\)", s)
-            and re.search(r"return f'\{func\}\(\{args\}\)'", s)):
-        res.fail(key, "the C MathFunction handler no longer selects the table row by the operand's type (REAL operands -> real row) "
-                 "or does not emit `func(args)`", cm.line(hsrc.node), props=("C09",))
     # numba
     classes = load_classes(repo)
     nt = HandlerTable(repo, "ffcx.codegeneration.numba.formatter")
